@@ -587,10 +587,12 @@ void
 	
 	    tries = 0;
 	    extra = (new_len - *prev_len) * lword;
+	    /* Growing UCOL also reserves the room by which USUB will grow. */
+#define UsubExtra (type == UCOL ? (new_len - *prev_len) * (int_t) sizeof(int_t) : 0)
 	    if ( keep_prev ) {
 		if ( StackFull(extra) ) return (NULL);
 	    } else {
-		while ( StackFull(extra) ) {
+		while ( StackFull(extra + UsubExtra) ) {
 		    if ( ++tries > 10 ) return (NULL);
 		    alpha = Reduce(alpha);
 		    new_len = alpha * *prev_len;
@@ -624,9 +626,10 @@ void
 		Glu->stack.top1 += extra;
 		Glu->stack.used += extra;
 		if ( type == UCOL ) {
-		    Glu->stack.top1 += extra;   /* Add same amount for USUB */
-		    Glu->stack.used += extra;
+		    Glu->stack.top1 += UsubExtra;   /* room for the growth of USUB */
+		    Glu->stack.used += UsubExtra;
 		}
+#undef UsubExtra
 		
 	    } /* end expansion */
 
